@@ -17,7 +17,7 @@ EXTENDS DiffRel
 KeyRank(s) ==
   CASE s = "k0" -> 0 [] s = "k1" -> 1 [] s = "k2" -> 2 [] s = "id" -> 3 [] s = "v" -> 4 [] s = "kz" -> 5
     [] s = "e0" -> 6 [] s = "e1" -> 7 [] s = "em" -> 8 [] s = "n1" -> 9 [] s = "dash" -> 10 [] s = "w0" -> 11
-    [] s = "from" -> 12 [] s = "to" -> 13 [] s = "w" -> 14 [] OTHER -> 99
+    [] s = "f0" -> 15 [] s = "f1" -> 16 [] s = "from" -> 12 [] s = "to" -> 13 [] s = "w" -> 14 [] OTHER -> 99
 SortedKeys(S) == SortSeq(SetToSeq(S), LAMBDA x, y : KeyRank(x) < KeyRank(y))
 
 (* ---- one longest common subsequence (leftmost), and all of them ----------------- *)
